@@ -418,7 +418,7 @@ class Seq(Family):
             if _canonical(ops) and any(o[0] in ('undo', 'redo') for o in ops):
                 yield [ND, nc, ops]
         # two extended ops in a row after a short core prefix
-        for pre in sequences(CORE, 2):
+        for pre in sequences(CORE, 1 if tier == "quick" else 2):
             for x in EXT:
                 for y in EXT:
                     ops = pre + [list(x), list(y)]
@@ -443,7 +443,7 @@ class SeqRandom(Seq):
 
     def cases(self, tier, rng):
         nc = self.colors
-        n_short, n_long = (6000, 500) if tier == "quick" else (150000, 15000)
+        n_short, n_long = (5000, 400) if tier == "quick" else (150000, 15000)
         for _ in range(n_short):
             yield [ND, nc, random_seq(rng, rng.randint(3, 10))]
         for _ in range(n_long):
@@ -525,5 +525,5 @@ PROP = Property(
                   "GlueSerializer / GlueUnSerializer are exercised, not modelled: `restore` models their effect on the collection bookkeeping only"],
     assumptions=["datasets enter the collection without subsets of their own (clients create subsets only through new_subset_group, as the module docstring of subset_group.py demands)",
                  "after a session restore the restored objects stand for the saved ones; objects of the old session that were in the old collection are out of scope"],
-    rule="exhaustive: all sequences of exactly L core ops (append/remove x3 datasets, new group (<=2), remove group, clear; L=5 quick, 6 thorough) modulo dataset symmetry, every prefix checked through per-step snapshots; one extended op (extend/merge/setitem/restore/setters/AddData-RemoveData commands/undo/redo) at every position of every core sequence of length 3 (quick) / 4 (thorough); all command/undo/redo words of length 4/5; all pairs of extended ops after 2 core ops; seeded random sequences up to length 60 with up to 5 groups and merged datasets. non-trivial = creates a group and adds a dataset",
+    rule="exhaustive: all sequences of exactly L core ops (append/remove x3 datasets, new group (<=2), remove group, clear; L=5 quick, 6 thorough) modulo dataset symmetry, every prefix checked through per-step snapshots; one extended op (extend/merge/setitem/restore/setters/AddData-RemoveData commands/undo/redo) at every position of every core sequence of length 3 (quick) / 4 (thorough); all command/undo/redo words of length 4/5; all pairs of extended ops after 1 (quick) / 2 (thorough) core ops; seeded random sequences up to length 60 with up to 5 groups and merged datasets. non-trivial = creates a group and adds a dataset",
 )
